@@ -83,6 +83,8 @@ pub struct OpStart {
     pub missing: u16,
     /// index into the transcript of the starting transaction
     pub txn: usize,
+    /// LoRa sync word registers at that moment (SX126x: MSB<<8 | LSB; SX127x: RegSyncWord)
+    pub sync: u16,
 }
 
 /// Things the chip model itself flags (clause "never commanded while asleep").
